@@ -313,7 +313,16 @@ type layerApp struct {
 func ifaceOrFunc(t types.Type) bool {
 	switch t.Underlying().(type) {
 	case *types.Interface:
-		return !types.Identical(t, types.Universe.Lookup("error").Type()) && t.Underlying().(*types.Interface).NumMethods() > 0
+		// collaborators are the interfaces of this module and of the libraries it plugs into (Client, Metadata, Consumer,
+		// prometheus.Collector, …); context.Context, io.Reader and the like are values, not collaborators
+		n, isNamed := types.Unalias(t).(*types.Named)
+		if !isNamed || n.Obj().Pkg() == nil {
+			return false
+		}
+		if first := strings.SplitN(n.Obj().Pkg().Path(), "/", 2)[0]; !strings.Contains(first, ".") {
+			return false // standard library
+		}
+		return t.Underlying().(*types.Interface).NumMethods() > 0
 	case *types.Signature:
 		return true
 	}
@@ -519,7 +528,7 @@ func (w *World) isExactPassThrough(fn *ssa.Function, iface string) bool {
 	if fn == nil || fn.Signature.Recv() == nil {
 		return false
 	}
-	for _, dm := range w.decorators() {
+	for _, dm := range w.decoratorsCached() {
 		if dm.Fn == fn && dm.Iface == iface && !dm.Promoted && dm.Why == "" {
 			return true
 		}
@@ -626,7 +635,7 @@ func apiRoutesExact(c *Ctx, id string) {
 				case len(hs) != 1:
 					c.Fail(id, construct, in.Pos(), "the route is registered with %d handlers: a handler in front of the endpoint can answer instead of it, so a request (a membership notice, a rebalance trigger, a state query) may never reach the library", len(hs))
 				default:
-					h := closureOf(hs[0])
+					h := closureOf(w.throughLayers(hs[0])) // a proven pass-through wrapper (logging) around the handler is the handler
 					if h == nil || h.Signature.Recv() == nil && (h.Parent() == nil) && !strings.Contains(fname(h), "api") {
 						c.Fail(id, construct, in.Pos(), "the handler is not a method of the API object: %s", w.Origin(hs[0]))
 					} else {
@@ -1249,4 +1258,159 @@ func noUnguardedDivision(c *Ctx, id string) {
 	if n == 0 {
 		c.Undecided(id, "div", 0, "no integer division by a variable found (the chunking helper has one)")
 	}
+}
+
+// ---------------------------------------------------------------------------------------------
+// looking through proven pass-through layers
+
+// transparentLayerType: every method the type contributes to the module interfaces it decorates is promoted or an
+// exact pass-through, and no other function of the type calls the wrapped value.
+func (w *World) transparentLayerType(n *types.Named) bool {
+	total := 0
+	for _, dm := range w.decoratorsCached() {
+		if dm.Type != shortNamed(n) {
+			continue
+		}
+		total++
+		if !dm.Promoted && dm.Why != "" {
+			return false
+		}
+	}
+	if total == 0 {
+		return false
+	}
+	for _, fn := range w.ModFuncs {
+		r := rootFn(fn)
+		if r.Signature.Recv() == nil || shortRecv(r) != shortNamed(n) {
+			continue
+		}
+		extra := false
+		allInstrs(fn, func(x ssa.Instruction) {
+			ci, isC := x.(ssa.CallInstruction)
+			if !isC || !ci.Common().IsInvoke() {
+				return
+			}
+			if _, isI := ci.Common().Value.Type().Underlying().(*types.Interface); !isI {
+				return
+			}
+			// an invoke on the wrapped value (a field of the receiver) outside the pass-through of the same method
+			if f := loadedField(ci.Common().Value); f != nil && !(fn == r && r.Name() == ci.Common().Method.Name()) {
+				if _, isIface := f.Type().Underlying().(*types.Interface); isIface {
+					extra = true
+				}
+			}
+		})
+		if extra {
+			return false
+		}
+	}
+	return true
+}
+
+var decoCache = map[*World][]decoMethod{}
+
+func (w *World) decoratorsCached() []decoMethod {
+	if d, ok := decoCache[w]; ok {
+		return d
+	}
+	d := w.decorators()
+	decoCache[w] = d
+	return d
+}
+
+// throughLayers peels proven pass-through layers off a collaborator value: a literal of a transparent layer type
+// around it, a pass-through wrapper function applied to it, a pass-through closure over it. What remains is the value
+// the rules about wiring reason about.
+func (w *World) throughLayers(v ssa.Value) ssa.Value {
+	for i := 0; i < 4; i++ {
+		u := unwrap(v)
+		switch x := u.(type) {
+		case *ssa.Alloc:
+			pt, ok := x.Type().(*types.Pointer)
+			if !ok {
+				return v
+			}
+			n, ok := types.Unalias(pt.Elem()).(*types.Named)
+			if !ok || !w.transparentLayerType(n) {
+				return v
+			}
+			st, ok := n.Underlying().(*types.Struct)
+			if !ok {
+				return v
+			}
+			tab, _ := allocTable(x)
+			var inner ssa.Value
+			for k := 0; k < st.NumFields(); k++ {
+				if _, isI := st.Field(k).Type().Underlying().(*types.Interface); isI {
+					if val, has := tab[st.Field(k).Name()]; has {
+						inner = val
+					}
+				}
+			}
+			if inner == nil {
+				return v
+			}
+			v = inner
+		case *ssa.Call:
+			g := x.Common().StaticCallee()
+			if g == nil || !w.inModule(g) || g.Blocks == nil || !ifaceOrFunc(x.Type()) {
+				return v
+			}
+			var inner ssa.Value
+			for k, a := range x.Common().Args {
+				if g.Signature.Recv() != nil && k == 0 {
+					continue
+				}
+				if ifaceOrFunc(a.Type()) && sameRole(a.Type(), x.Type()) {
+					inner = a
+				}
+			}
+			if inner == nil || w.provenPassThrough(layerApp{Fn: x.Parent(), At: x}) == "" {
+				return v
+			}
+			v = inner
+		default:
+			return v
+		}
+	}
+	return v
+}
+
+// avThroughLayers: the abstract value behind proven pass-through layers — an interface holding a pointer to a struct of
+// a transparent layer type is replaced by what the layer's interface-typed field holds.
+func (w *World) avThroughLayers(a AV) AV {
+	for i := 0; i < 4; i++ {
+		switch x := a.(type) {
+		case avIface:
+			if x.val == nil {
+				return a
+			}
+			a = x.val
+		case avPtr:
+			if x.c == nil {
+				return a
+			}
+			n, ok := types.Unalias(x.c.typ).(*types.Named)
+			if !ok || !w.transparentLayerType(n) {
+				return a
+			}
+			st, ok := n.Underlying().(*types.Struct)
+			if !ok {
+				return a
+			}
+			var inner AV
+			for k := 0; k < st.NumFields() && k < len(x.c.fields); k++ {
+				if _, isI := st.Field(k).Type().Underlying().(*types.Interface); isI && x.c.fields[k] != nil && x.c.fields[k].have {
+					inner = x.c.fields[k].val
+				}
+			}
+			if inner == nil {
+				return a
+			}
+			a = inner
+		default:
+			return a
+		}
+	}
+	return a
 }
